@@ -463,6 +463,14 @@ ENVIRONMENTS = {
     "logging at DEBUG level ('webauthn' logger hierarchy)": {"VERIF_LOGGING": "webauthn"},
     "python -bb (bytes/str comparisons are errors)": {"@args": "-bb"},
     "python -X dev, -X utf8, PYTHONINTMAXSTRDIGITS=640": {"@args": "-X dev -X utf8", "PYTHONINTMAXSTRDIGITS": "640"},
+    # what the interpreter SAYS it is, to code that asks (harness/envprobe.py masquerade): another implementation, platform, language version, word size
+    "masquerade: PyPy on win32": {"VERIF_MASQUERADE": "pypy,win32"},
+    "masquerade: darwin, Python 3.9, 32-bit sys.maxsize": {"VERIF_MASQUERADE": "darwin,py39,maxsize32"},
+    "masquerade: enum membership test as in Python 3.8-3.11 (TypeError for non-members)": {"VERIF_MASQUERADE": "old-enum"},
+    "masquerade: emscripten, recursion limit 220": {"VERIF_MASQUERADE": "emscripten,small-recursion"},
+    # hosts that cannot do everything: outcomes may turn into errors, but nothing the default environment refuses may be accepted (one-directional comparison)
+    "degraded: SHA-1 / MD5 disabled (FIPS policy)": {"VERIF_MASQUERADE": "fips", "@monotone": "1"},
+    "degraded: cryptography backend in FIPS mode": {"VERIF_MASQUERADE": "backend-fips", "@monotone": "1", "@strict_groups": "options"},
 }
 
 
@@ -646,6 +654,8 @@ def _env_invariance(chk, group):
         env["PYTHONPATH"] = repo
         env["PYTHONHASHSEED"] = "0"
         args = env.pop("@args", "").split()
+        env.pop("@monotone", None)
+        env.pop("@strict_groups", None)
         if tree is not None:
             keys[name] = os.path.join(cache_dir, hashlib.sha256(repr((tree, group, name, sorted(extra.items()), sys.version)).encode()).hexdigest()[:32] + ".json")
             try:
@@ -684,6 +694,9 @@ def _env_invariance(chk, group):
             chk.evals += 1
             n += 1
             got = m.get(label)
+            if environments[name].get("@monotone") and group not in environments[name].get("@strict_groups", "").split(","):
+                if not (got is not None and got.startswith("OK") and not out.startswith("OK")):
+                    continue        # a degraded host may fail where the default one succeeds - it may not accept what the default one refuses
             if name.startswith("python -bb") and got is not None and not out.startswith("OK") and not got.startswith("OK") and " OK " not in out and " OK " not in got:
                 continue        # -bb turns Python's own bytes/str comparison of a wrongly typed member into a BytesWarning: a rejection either way
             if got != out:
